@@ -8,7 +8,7 @@ from cgv.symgraph import TS
 META = {
     "level": "model_checking",
     "engine": "E2 lazy-fork symbolic execution of the real Circuit.add/connect/disconnect/remove/set_output/add_blackbox/add_subcircuit/fill_blackbox on an arbitrary LEGAL pre-state (inductive step): per path z3 proves legality of the post-state, no edge added by a rejected call, exception type, uid freshness, pin bookkeeping",
-    "hashseeds": {"quick": [0], "thorough": [0, 1]},
+    "hashseeds": {"quick": [0], "thorough": [0]},
     "shards": {"quick": 16, "thorough": 8},
     "exhaustive_within_bound": True,
     "bounds": {
